@@ -33,6 +33,8 @@ type frame struct {
 }
 
 type Exec struct {
+	unwinding []unwindPoint // deferred calls being run while a panic unwinds (innermost last)
+	headState map[*ssa.BasicBlock]*State // loop head -> state at the start of the pass under execution (for step clauses)
 	w          *World
 	fn         *ssa.Function
 	con        *Contract
@@ -370,7 +372,10 @@ func (e *Exec) load(s *State, addr Val, t types.Type) Val {
 		e.loadFacts(s, t, v)
 		return v
 	case ArrPtr:
-		e.abort("load of whole array object")
+		// the value of a whole fixed-size array is an opaque term (sort ArrN_T): loading it from an indexed local array yields
+		// an unknown value of that sort - an over-approximation (the relation to the elements is not modelled)
+		e.note("model-imprecision", "load of a whole fixed-size array: value unknown")
+		return e.symbolic(s, t, "arrval")
 	case GlobalAddr:
 		if v, ok := e.globals[a.Name]; ok {
 			return v
@@ -649,6 +654,22 @@ func (e *Exec) blockFrom(s *State, b *ssa.BasicBlock, from int, depth int) {
 			e.abort("outside subset: Index on array/string value")
 		case *ssa.Slice:
 			s.regs[x] = e.sliceOp(s, x)
+		case *ssa.SliceToArrayPointer:
+			// [N]T(s) / (*[N]T)(s): panics when len(s) < N. Modelled only where the pointer is immediately dereferenced
+			// (the conversion to an array VALUE): the value is an opaque array term, so the pointer is a fresh array object
+			// with unknown elements - an over-approximation; a pointer that is kept would alias the slice (outside the subset).
+			sv, ok := e.val(s, x.X).(SliceV)
+			at, ok2 := x.Type().Underlying().(*types.Pointer).Elem().Underlying().(*types.Array)
+			if !ok || !ok2 {
+				e.abort("outside subset: SliceToArrayPointer on %T", e.val(s, x.X))
+			}
+			for _, r := range *x.Referrers() {
+				if u, ok := r.(*ssa.UnOp); !ok || u.Op != token.MUL {
+					e.abort("outside subset: array pointer obtained from a slice is kept (aliases the slice)")
+				}
+			}
+			e.safety("slice", s, fmt.Sprintf("(>= %s %d)", sv.Len, at.Len()))
+			s.regs[x] = ArrPtr{Arr: e.freshRef(s, "s2a"), Len: at.Len()}
 		case *ssa.MakeSlice:
 			arr := e.freshRef(s, "mk")
 			ln, cp := e.sc(s, x.Len), e.sc(s, x.Cap)
@@ -782,7 +803,7 @@ func (e *Exec) blockFrom(s *State, b *ssa.BasicBlock, from int, depth int) {
 			s.regs[x] = e.convert(s, x)
 		case *ssa.ChangeType:
 			s.regs[x] = e.val(s, x.X)
-		case *ssa.SliceToArrayPointer, *ssa.MultiConvert:
+		case *ssa.MultiConvert:
 			e.abort("outside subset: %T", x)
 		case *ssa.DebugRef:
 		case *ssa.Go:
@@ -794,6 +815,13 @@ func (e *Exec) blockFrom(s *State, b *ssa.BasicBlock, from int, depth int) {
 				e.abort("outside subset: channel send")
 			}
 		case *ssa.Panic:
+			if len(e.unwinding) > 0 {
+				// a panic raised by a deferred function while a panic unwinds (typically: recover, clean up, panic again):
+				// the rest of the deferred function is abandoned and the unwinding goes on, panicking
+				s.panicking = true
+				e.resumeUnwind(s)
+				return
+			}
 			e.panicExit(s, "explicit panic")
 			return
 		case *ssa.Jump:
@@ -1163,6 +1191,69 @@ func (e *Exec) scalarize(s *State, v ssa.Value) Val {
 }
 
 // ---------- defers and exits ----------
+
+// A panic that unwinds: the deferred calls of the function under verification run in reverse order; a deferred function
+// that calls recover() stops the panic (execution then resumes in the function's recover block, i.e. it returns its named
+// results); if the panic is still on when the last deferred call has run, the function exits by panic and the
+// ensures-on-panic clauses are proved.
+type unwindPoint struct {
+	frames int             // len(e.frames) when the deferred call was started
+	rest   func(*State)    // continue the unwinding after this deferred call
+}
+
+func (e *Exec) unwind(s *State) {
+	if len(s.defers) == 0 {
+		if s.panicking {
+			e.atPanicExit(s)
+			return
+		}
+		// recovered: the function returns normally through its recover block
+		if e.fn.Recover != nil {
+			s.prev = nil
+			e.blockFrom(s, e.fn.Recover, 0, 1)
+			return
+		}
+		var res []Val
+		rs := e.fn.Signature.Results()
+		for i := 0; i < rs.Len(); i++ {
+			res = append(res, zero(rs.At(i).Type()))
+		}
+		e.atExit(s, res)
+		return
+	}
+	d := s.defers[len(s.defers)-1]
+	s.defers = s.defers[:len(s.defers)-1]
+	e.unwinding = append(e.unwinding, unwindPoint{frames: len(e.frames), rest: func(s2 *State) { e.unwind(s2) }})
+	e.callDeferred(s, d, func(s2 *State) {
+		up := e.unwinding[len(e.unwinding)-1]
+		e.unwinding = e.unwinding[:len(e.unwinding)-1]
+		up.rest(s2)
+		e.unwinding = append(e.unwinding, up)
+	})
+	e.unwinding = e.unwinding[:len(e.unwinding)-1]
+}
+
+// a deferred function panicked during the unwinding: drop what is left of it and go on with the next deferred call
+func (e *Exec) resumeUnwind(s *State) {
+	up := e.unwinding[len(e.unwinding)-1]
+	saved := e.frames
+	e.frames = append([]frame{}, e.frames[:up.frames]...)
+	e.unwinding = e.unwinding[:len(e.unwinding)-1]
+	up.rest(s)
+	e.unwinding = append(e.unwinding, up)
+	e.frames = saved
+}
+
+func (e *Exec) atPanicExit(s *State) {
+	con := e.con
+	e.curPos = token.NoPos
+	env := e.exitEnv(s, nil)
+	for _, en := range con.EnsPanic {
+		e.prove("ensures-on-panic", en.Label(), en.Tags, s, en.Expr, env, "ensures-on-panic "+en.Src)
+	}
+	e.obls = append(e.obls, Oblig{Key: shortFunc(e.fn.String()) + "/vacuity@panic-exit", Kind: "vacuity-backedge", Func: e.fn.String(), Pre: append([]string{}, s.pc...), Goal: "false", Canary: true, Path: e.paths, Desc: "some path that leaves the function by panic must be feasible", Trace: append([]string{}, s.trace...)})
+	e.endPath()
+}
 
 func (e *Exec) runDefers(s *State, base int, rest func(*State)) {
 	if len(s.defers) <= base {
